@@ -648,6 +648,14 @@ Definition parse_units_tokens (r : reg) (toks : list tok) : res uc :=
   ' (p, fl) ←r ph_from_tokens toks;
   if negb fl && negb (bool_decide (ph_scale p = 1%Qc)) then Err EValue else resolve_names r (ph_d p).
 
+(** "its exponent is rendered exactly": the number the plain formats print for [|x|] is read back
+    by the parser as [|x|] (decided by the model; K compares it with Python on every exponent) *)
+Definition exact_renderedb (qk : quirks) (x : expo) : bool :=
+  match parse_number (fmt_n_str qk (xabs x)) with
+  | Some q => bool_decide (q = xval (xabs x))
+  | None => false
+  end.
+
 (** the container a list of items stands for *)
 Definition uc_of (its : items) : uc := list_to_map (map (λ nx : string * expo, (nx.1, xval nx.2)) its).
 Definition items_wf (its : items) : Prop :=
